@@ -67,8 +67,43 @@ let show_spec_probe (held : CatTreeS.skey -> ReloadS.served) (n, c) =
        | ReloadS.SLoaded (z, _, _) -> Printf.sprintf "%s:%d" (text_of_labels s) (int_of_n z)) in
   go (suffixes q)
 
+(* ---- the key-reload scenario (case line K:<step>;<step>;...).  There is no Coq model of the key map: the line
+   is decided against this STATED expectation, the obvious function of the history: the key set in force after a
+   step is exactly the step's list (a rejected step, prefix '!', leaves it as it was); a request signed with
+   (name, algorithm, secret) is answered iff that name is configured with that algorithm and that secret; a name
+   that is not configured, or configured with another algorithm, is BADKEY; the right algorithm with another
+   secret is BADSIG; an unsigned request is always answered.  Variants: a = (sha256, secret A), b = (sha1, secret A),
+   c = (sha256, secret B). *)
+let key_names = ["k1"; "k2"; "k3"]
+let variants = ['a'; 'b'; 'c']
+let alg_of v = if v = 'b' then 1 else 256
+let secret_of v = if v = 'c' then 'B' else 'A'
+
+let keys_expected (case : string) : string =
+  let steps = String.split_on_char ';' (String.sub case 2 (String.length case - 2)) in
+  let parse step =
+    if step = "-" then []
+    else Stdlib.List.map (fun k -> match String.split_on_char '.' k with
+        | [n; v] when String.length v = 1 -> (String.lowercase_ascii n, v.[0])
+        | _ -> failwith "bad key") (String.split_on_char ',' step) in
+  let (_, outs) = Stdlib.List.fold_left (fun (cur, acc) step ->
+      let rejected = String.length step > 0 && step.[0] = '!' in
+      let cur' = if rejected then cur else parse step in
+      let probe n v = match Stdlib.List.assoc_opt n cur' with
+        | None -> "badkey"
+        | Some w when w = v -> "ok"
+        | Some w when alg_of w <> alg_of v -> "badkey"
+        | Some w when secret_of w <> secret_of v -> "badsig"
+        | Some _ -> "ok" in
+      let rs = Stdlib.List.concat_map (fun n ->
+          Stdlib.List.map (fun v -> Printf.sprintf "%s%c=%s" n v (probe n v)) variants) key_names in
+      (cur', ("[" ^ String.concat "," (rs @ ["plain=ok"]) ^ "]") :: acc)) ([], []) steps in
+  String.concat " " ("ok" :: Stdlib.List.rev outs)
+
 let () = run_lines (fun f ->
   match f with
+  | [k] when String.length k > 2 && String.sub k 0 2 = "K:" ->
+    let e = keys_expected k in e ^ " | " ^ e
   | pf :: steps ->
     let probes = Stdlib.List.map (fun p -> match String.split_on_char '/' p with
         | [n; c] -> (labels_of_text n, n_of_int (int_of_string c)) | _ -> failwith "probe")
